@@ -94,6 +94,14 @@ class AttributesFrozendict(Frozendict):
             errmsg = f"'{self.__class__.__name__}' object has no attribute '{attr}'"
             raise AttributeError(errmsg)
 
+    def __setattr__(self, attr: str, value: Any) -> None:
+        """
+        The keys can be read as attributes but, like the items, not be set: an attribute that is set would hide the key.
+        """
+        if self.__dict__.get('_initialised', False) and not attr.startswith('_'):
+            raise AttributeError(f"'{self.__class__.__name__}' object does not support attribute assignment")
+        super().__setattr__(attr, value)
+
     def __dir__(self) -> List[str]:
         """
         So we get tab completion.
